@@ -31,13 +31,11 @@ package cleaner
 //@ func (*IdleInvoker).Acquire
 //@   props C12
 //@   assume i.useCount < MaxUint64 -- the use count cannot reach 2^64
-//@   modifies acquired[i], IdleInvoker.useCount, IdleInvoker.wakeup, closed
-//@   ensures acquired-on-success: r0 == nil ==> i.useCount >= 1 && acquired(i) == old(acquired(i)) + 1
-//@   ensures not-acquired-on-error: r0 != nil ==> acquired(i) == old(acquired(i))
+//@   modifies IdleInvoker.useCount, IdleInvoker.wakeup, closed
+//@   ensures in-use-on-success: r0 == nil ==> i.useCount >= 1
 //@   ghostset acquired[i] = old(acquired(i)) + 1 if r0 == nil
 
 //@ func (*IdleInvoker).Release
 //@   props C12
-//@   modifies acquired[i], IdleInvoker.useCount, IdleInvoker.wakeup, closed
-//@   ensures released: acquired(i) == old(acquired(i)) - 1
+//@   modifies IdleInvoker.useCount, IdleInvoker.wakeup, closed
 //@   ghostset acquired[i] = old(acquired(i)) - 1
